@@ -225,6 +225,14 @@ def scenarios(rng: random.Random, tier: str) -> list[str]:
         for k in sorted({max(1, cer_t - 1), cer_t, cer_t + 1, cer_t + 2}):
             out.append(cfg + f" | start fail | acc | adv {k} | tick")
             out.append(cfg + f" | start fail | acc | adv {k} | rx 1 " + nodegen.cer("peer2.x", "4", 71, 72) + " | tick")
+    # an application sends a request while the connection the node has dialled is still awaiting its CEA (CONNECTED),
+    # while the non-blocking connect is still in progress (CONNECTING), after a rejecting CEA, after the 2001 CEA
+    for cfgn in ("out", "basic"):
+        req = f"req 0 {nodegen.ccr(0, 0, 'node.local')} 1"
+        out.append(nodegen.CONFIGS[cfgn] + f" | start ok,ok | {req} | tick | rx 0 " + nodegen.cea(2001, "peer1.x", 2001, 268435464) + f" | {req} | tick")
+        out.append(nodegen.CONFIGS[cfgn] + f" | start inp,inp | {req} | conn 0 ok | {req} | tick")
+        out.append(nodegen.CONFIGS[cfgn] + f" | start ok,ok | rx 0 " + nodegen.cea(5010, "peer1.x", 2001, 268435464) + f" | {req} | tick")
+        out.append(nodegen.CONFIGS[cfgn] + f" | start ok,ok | acc | {req} | rx 2 " + nodegen.cer("peer1.x", "4", 7001, 7002) + f" | {req} | tick")
     # (lines of the implementation that tools/implcov.py showed no scenario reached)
     # a CEA announcing its applications inside Vendor-Specific-Application-Id AVPs only / as well
     for extra in (",vauth=4", ",vacct=3", ",vauth=4+99,vacct=3", ",vauth=99"):
